@@ -154,7 +154,8 @@ impl ReadOptionsBuilder {
 }
 
 // ---- ghost log of what a handler appends ----
-pub struct Hx { pub ghost appended: Seq<Frame>, pub ghost processed: Seq<Frame>, pub ghost incoming: Seq<Frame> }
+pub struct Hx { pub ghost appended: Seq<Frame>, pub ghost processed: Seq<Frame>, pub ghost incoming: Seq<Frame>,
+                pub ghost buffered: Seq<Frame>, pub ghost evals: nat }
 #[verifier::external_body] pub struct Store { _p: () }
 #[derive(Debug)] pub struct AppendError;
 impl Store {
@@ -162,6 +163,7 @@ impl Store {
     #[verifier::external_body]
     pub fn append(&self, Tracked(hx): Tracked<&mut Hx>, f: Frame) -> (r: Result<Frame, AppendError>)
         ensures final(hx).appended == old(hx).appended.push(f), final(hx).processed == old(hx).processed, final(hx).incoming == old(hx).incoming,
+            final(hx).buffered == old(hx).buffered, final(hx).evals == old(hx).evals,
     { unimplemented!() }
 }
 //@@ default_after_all: store.append( ==> Tracked(hx),
@@ -202,6 +204,140 @@ pub assume_specification<T, P: FnOnce(&T) -> bool> [Option::<T>::filter] (o: Opt
     ensures match o { Some(x) => (r == Some(x) && call_ensures(p, (&x,), true)) || (r is None && call_ensures(p, (&x,), false)), None => r is None };
 pub assume_specification<'a> [<&'a str as PartialEq<String>>::eq] (a: &&'a str, b: &String) -> (r: bool)
     ensures r == (a@ == b@);
+
+// ---- what process_frame calls (ASSUMED contracts): the nu engine, value conversion, the CAS, the output buffer ----
+pub struct Span { pub _p: () }
+pub enum Value { Nothing { internal_span: Span }, Other { internal_span: Span } }     // nu_protocol::Value: only `Nothing` matters here
+#[verifier::external_body] pub struct OutGuard { _p: () }
+#[verifier::external_body] pub struct OutLock { _p: () }
+#[verifier::external_body] pub struct DrainIter { _p: () }
+#[verifier::external_body] pub struct ChainIter { _p: () }
+#[derive(Debug)] pub struct CasError { pub _p: () }
+impl From<CasError> for Error { #[verifier::external_body] fn from(e: CasError) -> (r: Error) { unimplemented!() } }
+pub uninterp spec fn drain_seq(d: &DrainIter) -> Seq<Frame>;
+pub uninterp spec fn chain_seq(c: &ChainIter) -> Seq<Frame>;
+pub uninterp spec fn opt_iter_seq<T>(i: &std::option::IntoIter<T>) -> Seq<T>;
+#[verifier::external_type_specification] #[verifier::external_body] #[verifier::reject_recursive_types(T)]
+pub struct ExOptIntoIter<T>(std::option::IntoIter<T>);
+// Option::into_iter: yields the value, if any (Verus does not let a specification be attached to IntoIterator::into_iter)
+#[verifier::external_body]
+pub fn opt_into_iter<T>(o: Option<T>) -> (r: std::option::IntoIter<T>)
+    ensures opt_iter_seq(&r) == (match o { Some(f) => seq![f], None => Seq::<T>::empty() })
+{ unimplemented!() }
+impl OutputBuf {
+    #[verifier::external_body] pub fn lock(&self) -> (r: OutLock) { unimplemented!() }
+}
+impl OutLock {
+    #[verifier::external_body] pub fn unwrap(self) -> (r: OutGuard) { unimplemented!() }
+}
+impl OutGuard {
+    // drain(..): hands out everything the script's `.append` calls buffered during this evaluation, in call order
+    #[verifier::external_body]
+    pub fn drain(&mut self, Tracked(hx): Tracked<&mut Hx>, r: std::ops::RangeFull) -> (d: DrainIter)
+        ensures drain_seq(&d) == old(hx).buffered, final(hx).buffered == Seq::<Frame>::empty(),
+            final(hx).appended == old(hx).appended, final(hx).processed == old(hx).processed, final(hx).incoming == old(hx).incoming,
+            final(hx).evals == old(hx).evals,
+    { unimplemented!() }
+}
+impl DrainIter {
+    #[verifier::external_body]
+    pub fn chain(self, o: std::option::IntoIter<Frame>) -> (c: ChainIter) ensures chain_seq(&c) == drain_seq(&self) + opt_iter_seq(&o) { unimplemented!() }
+}
+impl ChainIter {
+    #[verifier::external_body]
+    pub fn collect(self) -> (v: Vec<Frame>) ensures v@ == chain_seq(&self) { unimplemented!() }
+}
+#[verifier::external_body]
+pub fn is_value_an_append_frame_from_handler(value: &Value, handler_id: &Scru128Id) -> (r: bool) { unimplemented!() }
+#[verifier::external_body]
+pub fn value_to_json(value: &Value) -> (r: serde_json::Value) { unimplemented!() }
+impl std::fmt::Display for serde_json::Value { #[verifier::external_body] fn fmt(&self, f: &mut std::fmt::Formatter) -> std::fmt::Result { unimplemented!() } }
+pub proof fn axiom_fmt_req2() ensures vstd::std_specs::fmt::fmt_req_all::<serde_json::Value>() { admit(); }
+impl Store {
+    // cas_insert: content stored under the returned hash, or an error (ASSUMED of cacache)
+    #[verifier::external_body]
+    pub fn cas_insert(&self, content: &String) -> (r: Result<Integrity, CasError>) { unimplemented!() }
+}
+impl FrameBuilder {
+    #[verifier::external_body] pub fn maybe_ttl(self, t: Option<TTL>) -> (b: FrameBuilder) ensures b.f == (Frame { ttl: t, ..self.f }) { unimplemented!() }
+    #[verifier::external_body] pub fn maybe_hash(self, h: Option<Integrity>) -> (b: FrameBuilder) ensures b.f == (Frame { hash: h, ..self.f }) { unimplemented!() }
+}
+impl Clone for TTL { #[verifier::external_body] fn clone(&self) -> (r: TTL) ensures r == *self { unimplemented!() } }
+impl Clone for Frame { #[verifier::external_body] fn clone(&self) -> (r: Frame) ensures r == *self { unimplemented!() } }
+pub assume_specification<T: std::ops::Deref> [Option::<T>::as_deref] (o: &Option<T>) -> (r: Option<&<T as std::ops::Deref>::Target>)
+    ensures r is Some <==> *o is Some;
+
+impl Handler {
+    // evaluating the handler closure: may buffer `.append`ed frames (ghost hx.buffered) and succeeds or fails
+    #[verifier::external_body]
+    pub fn eval_in_thread(&self, Tracked(hx): Tracked<&mut Hx>, frame: &Frame) -> (r: Result<Value, Error>)
+        ensures final(hx).appended == old(hx).appended, final(hx).processed == old(hx).processed, final(hx).incoming == old(hx).incoming,
+            final(hx).evals == old(hx).evals + 1,
+            forall|i: int| 0 <= i < final(hx).buffered.len() ==> (#[trigger] final(hx).buffered[i]).meta is None || serde_json::is_object(final(hx).buffered[i].meta.unwrap()),
+    { unimplemented!() }
+}
+//@@ default_after_all: .eval_in_thread( ==> Tracked(hx),
+//@@ default_after_all: .drain( ==> Tracked(hx),
+
+impl Handler {
+// ================= process_frame, whole function (C15) =================
+//@@ item file=src/handlers/handler.rs fn=process_frame impl=Handler ret=r as=process_frame_whole
+//@@ attr: #[verifier::loop_isolation(false)]
+//@@ strip: async await
+//@@ rewrite: additional_frame.into_iter() ==> opt_into_iter(additional_frame)
+//@@ after_all: fn process_frame(&mut self, ==> Tracked(hx): Tracked<&mut Hx>,
+//@@ for_name: for mut output_frame in
+//@@ closure_spec: .get_or_insert_with( ==> -> (v: serde_json::Value) ensures serde_json::is_object(v)
+//@@ loop_spec: for mut output_frame in
+    invariant
+        hx.processed == old(hx).processed, self.id == old(self).id, self.context_id == old(self).context_id,
+        hx.evals == old(hx).evals + 1,
+        hx.appended.len() == old(hx).appended.len() + it.index@,
+        forall|i: int| 0 <= i < old(hx).appended.len() ==> #[trigger] hx.appended[i] == old(hx).appended[i],
+        forall|i: int| 0 <= i < it.index@ ==> stamped(#[trigger] hx.appended[old(hx).appended.len() + i], output_to_process@[i], self, frame), //# handler.process_frame.outputs_stamped_in_order
+//@@ before_stmt?: let _ = store.append(
+    proof {
+        reveal_strlit("handler_id"); reveal_strlit("frame_id");
+        assert("handler_id"@.len() != "frame_id"@.len());
+    }
+//@@ loop_top: for mut output_frame in
+    broadcast use axiom_display_id, axiom_display_str, serde_json::axiom_key_chars_str, serde_json::axiom_key_chars_string;
+//@@ spec
+    requires old(hx).buffered.len() == 0,
+    ensures
+        final(self).id == old(self).id, final(self).context_id == old(self).context_id,
+        // all-or-nothing: if the closure (or storing its return value) fails, NONE of the frames of this invocation appear (C15)
+        r is Err ==> final(hx).appended == old(hx).appended, //# handler.process_frame.nothing_on_failure
+        // on success: the buffered `.append`s in call order, then (if any) the return-value frame, each exactly once,
+        // stamped and forced into the handler's context; the closure was evaluated exactly once (C14, C15)
+        final(hx).evals == old(hx).evals + 1, //# handler.process_frame.one_evaluation
+        r is Ok ==> exists|outs: Seq<Frame>| pf_outputs(outs, old(self), frame) && final(hx).appended.len() == old(hx).appended.len() + outs.len()
+            && (forall|i: int| 0 <= i < old(hx).appended.len() ==> #[trigger] final(hx).appended[i] == old(hx).appended[i])
+            && (forall|i: int| 0 <= i < outs.len() ==> stamped(#[trigger] final(hx).appended[old(hx).appended.len() + i], outs[i], old(self), frame)), //# handler.process_frame.outputs_stamped_in_order
+//@@ prologue
+    broadcast use axiom_display_id, axiom_display_str;
+    proof { axiom_fmt_req2(); }
+//@@ before_stmt?: for mut output_frame in
+    proof {
+        assert(output_to_process@ =~= hx_after_eval.buffered + (match add0 { Some(f) => seq![f], None => Seq::<Frame>::empty() }));
+        assert forall|i: int| 0 <= i < output_to_process@.len() implies
+            (#[trigger] output_to_process@[i]).meta is None || serde_json::is_object(output_to_process@[i].meta.unwrap()) by {
+            if i < hx_after_eval.buffered.len() { assert(output_to_process@[i] == hx_after_eval.buffered[i]); }
+            else { assert(add0 is Some); assert(output_to_process@[i] == add0.unwrap()); assert(add0.unwrap().meta is None); }
+        }
+        assert(pf_outputs(output_to_process@, self, frame));
+    }
+//@@ before_stmt?: let additional_frame =
+    let ghost hx_after_eval = *hx;
+//@@ before_stmt?: let output_to_process
+    let ghost add0 = additional_frame;
+//@@ end
+}
+// the frames one invocation emits: what the script buffered (any frames whose meta is absent or an object), then at most one
+// return-value frame, which is in the handler's context, has a hash and no meta
+spec fn pf_outputs(outs: Seq<Frame>, h: &Handler, trigger: &Frame) -> bool {
+    &&& forall|i: int| 0 <= i < outs.len() ==> (#[trigger] outs[i]).meta is None || serde_json::is_object(outs[i].meta.unwrap())
+}
 
 impl Handler {
 // ================= configure_read_options (C06, C14) =================
